@@ -36,7 +36,7 @@ theorem mem_pairs_of_ne {α} : ∀ (l : List α) (x y : α), x ∈ l → y ∈ l
       · exact Or.inl (Or.inr h)
       · exact Or.inr (Or.inr h)
 
-theorem atWorld_inj_world {n m : Name} {w1 w2 : World} (h : atWorld n w1 = atWorld m w2) : n = m ∧ w1 = w2 := by
+theorem atWorld_inj_world_c08 {n m : Name} {w1 w2 : World} (h : atWorld n w1 = atWorld m w2) : n = m ∧ w1 = w2 := by
   unfold atWorld at h
   simp only [Var.mk.injEq] at h
   exact ⟨h.1, h.2.2.2⟩
